@@ -59,6 +59,12 @@ func flight2Parse(
 	}
 	state.RemoteClientHelloSnapshots = snapshots
 
+	// Only this ClientHello is covered by the Finished messages: what the
+	// handshake negotiates is taken from it, not from the first one.
+	if dtlsAlert, err := applyClientHelloExtensions(state, cfg, clientHello); err != nil {
+		return 0, dtlsAlert, err
+	}
+
 	return Flight4, nil, nil
 }
 
